@@ -979,6 +979,47 @@ def register(S):
         ctx.ip.write_loc(ctx.st, ref.loc, NONE)
         return ctx.ret(v)
 
+    @S.on("core::mem::replace")
+    def mem_replace(ctx):
+        ref = ctx.args[0]
+        if not isinstance(ref, RefVal):
+            return NotImplemented
+        v = ctx.ip.read_loc(ctx.st, ref.loc)
+        ctx.ip.write_loc(ctx.st, ref.loc, ctx.args[1])
+        return ctx.ret(v)
+
+    @S.on("core::mem::swap")
+    def mem_swap(ctx):
+        a, b = ctx.args[0], ctx.args[1]
+        if not isinstance(a, RefVal) or not isinstance(b, RefVal):
+            return NotImplemented
+        va, vb = ctx.ip.read_loc(ctx.st, a.loc), ctx.ip.read_loc(ctx.st, b.loc)
+        ctx.ip.write_loc(ctx.st, a.loc, vb)
+        ctx.ip.write_loc(ctx.st, b.loc, va)
+        return ctx.ret(UNIT)
+
+    @S.on("core::mem::take")
+    def mem_take(ctx):
+        ref = ctx.args[0]
+        if not isinstance(ref, RefVal):
+            return NotImplemented
+        rty = ctx.ret_ty()
+        d = None
+        t = ty_of_json(rty) if rty else None
+        if t is not None:
+            d = IntVal.const(t, 0)
+        elif rty and rty.get("k") == "float":
+            d = FloatVal(rty["bits"], const=0.0, term=("const", "0.0"))
+        elif rty and rty.get("k") == "adt" and rty["path"] == OPTION:
+            d = NONE
+        elif rty and rty.get("k") == "adt" and rty["path"] in ("alloc::vec::Vec", "alloc::string::String"):
+            d = Opaque.make("string" if rty["path"].endswith("String") else "vec", elems=(), n=0, summary=None)
+        if d is None:
+            return NotImplemented
+        v = ctx.ip.read_loc(ctx.st, ref.loc)
+        ctx.ip.write_loc(ctx.st, ref.loc, d)
+        return ctx.ret(v)
+
     @S.on("core::option::Option::<T>::unwrap_or_default", "core::result::Result::<T, E>::unwrap_or_default")
     def unwrap_or_default(ctx):
         isopt = "option" in ctx.path
